@@ -57,7 +57,11 @@ def check_rejection(lw, us, errs, tag):
     with rng.patch_rand(lambda shape, name: uarr.copy() if shape == (n,) else None, callers={"draw_posterior_samples"}):
         try:
             with np.errstate(all="ignore"):
-                post, idx = draw_posterior_samples(ns, log_w=np.array(lw), method="rejection_sampling", return_indices=True)
+                _lw = np.array(lw, dtype=float)
+                _lw0, _ns0 = _lw.tobytes(), ns.tobytes()
+                post, idx = draw_posterior_samples(ns, log_w=_lw, method="rejection_sampling", return_indices=True)
+                if _lw.tobytes() != _lw0 or ns.tobytes() != _ns0:
+                    errs.append(("rejection-modifies-its-input-arrays", f"log_w={lw} -> {_lw}"))
         except Exception as e:
             errs.append((f"rejection-raises-{type(e).__name__}", f"{e} log_w={lw} u={us}"))
             return None
@@ -105,7 +109,11 @@ def check_multinomial(lw, nreq, method, errs):
         with rng.patch_choice(lambda a, k, name: ans.copy(), callers={"draw_posterior_samples"}, record=rec):
             try:
                 with np.errstate(all="ignore"):
-                    post, idx = draw_posterior_samples(ns, log_w=np.array(lw), n=nreq, method=method, return_indices=True)
+                    _lw = np.array(lw, dtype=float)
+                    _lw0, _ns0 = _lw.tobytes(), ns.tobytes()
+                    post, idx = draw_posterior_samples(ns, log_w=_lw, n=nreq, method=method, return_indices=True)
+                    if _lw.tobytes() != _lw0 or ns.tobytes() != _ns0:
+                        errs.append(("multinomial-modifies-its-input-arrays", f"log_w={lw} -> {_lw} method={method}"))
             except Exception as e:
                 errs.append((f"multinomial-raises-{type(e).__name__}", f"{e} log_w={lw} n={nreq}"))
                 return 0
@@ -223,7 +231,11 @@ def long_cases(errs):
             for nreq in (None, 0, 7, 2 * N if N == 1000 else 5):
                 np.random.seed(1)
                 with np.errstate(all="ignore"):
+                    _lw0 = lw.tobytes()
                     post, idx = draw_posterior_samples(ns, log_w=lw, n=nreq, method="multinomial_resampling", return_indices=True)
+                    if lw.tobytes() != _lw0:
+                        errs.append(("multinomial-modifies-its-input-arrays", f"long-{name}-{N} n={nreq}"))
+                        lw = np.frombuffer(_lw0, dtype=lw.dtype).copy()
                 n_eval += 1
                 exp_n = int(ess) if nreq is None else nreq
                 if len(post) != exp_n or len(idx) != exp_n:
@@ -234,7 +246,11 @@ def long_cases(errs):
                     errs.append(("multinomial-selected-zero-weight-sample", f"long-{name}-{N}"))
             np.random.seed(2)
             with np.errstate(all="ignore"):
+                _lw0 = lw.tobytes()
                 post, idx = draw_posterior_samples(ns, log_w=lw, method="rejection_sampling", return_indices=True)
+                if lw.tobytes() != _lw0:
+                    errs.append(("rejection-modifies-its-input-arrays", f"long-{name}-{N}"))
+                    lw = np.frombuffer(_lw0, dtype=lw.dtype).copy()
             n_eval += 1
             if post.tobytes() != ns[idx].tobytes():
                 errs.append(("rejection-samples-not-rows-identified-by-indices", f"long-{name}-{N}"))
